@@ -155,7 +155,7 @@ def _case(draw, tier):
     n_views = 0
     view_shapes = []
     for _ in range(n_ops):
-        kinds = ["get", "get", "get", "repeat", "pop", "bad"]
+        kinds = ["get", "get", "get", "repeat", "pop", "bad", "interrupt"]
         if n_inf:
             kinds += ["view", "view"]
             if n_views:
@@ -165,6 +165,9 @@ def _case(draw, tier):
             ops.append(["get", draw(_full_index(shape, n_inf))])
         elif kind == "repeat":
             ops.append(["repeat", draw(st.integers(0, 30))])
+        elif kind == "interrupt":
+            # a request during which the k-th element evaluation is aborted by an exception raised in eval
+            ops.append(["interrupt", draw(_full_index(shape, n_inf)), draw(st.integers(1, 4)), draw(st.sampled_from(["keyboard", "value", "exit"]))])
         elif kind == "pop":
             idx = [draw(st.integers(0, d - 1)) for d in shape] + [draw(st.integers(0, 3)) for _ in range(n_inf)]
             ops.append(["pop", idx])
@@ -312,6 +315,10 @@ def _requested(shape, ext, index):
     return [tuple(int(i) for i in idx) for idx in zip(*np.where(trial))] if trial.shape else [()]
 
 
+class _Injected(ValueError):
+    pass
+
+
 # ------------------------------------------------------------------------ check_case
 def check_case(case, enforce_all=False):
     import numpy.ma as ma
@@ -345,6 +352,13 @@ def check_case(case, enforce_all=False):
             val = model.code(idx)
         if idx in cached and state["double"] is None:
             state["double"] = idx
+        f = state.get("fault")
+        if f is not None:
+            f["count"] += 1
+            if f["count"] == f["at"]:
+                state["fault"] = None
+                f["fired"] = idx
+                raise f["exc"]("injected into eval")
         cached.add(idx)
         log.append(idx)
         return val
@@ -439,6 +453,34 @@ def check_case(case, enforce_all=False):
                 out.labels.append("op:repeat")
                 flags["history"] = True
                 do_get(history[op[1] % len(history)], what)
+        elif kind == "interrupt":
+            index = _to_index(op[1])
+            ext = _bounding(shape, n_inf, index)
+            req = _requested(shape, ext, index)
+            if any(in_loop(r) for r in req):
+                continue
+            exc_cls = {"keyboard": KeyboardInterrupt, "value": _Injected, "exit": SystemExit}[op[3]]
+            fault = {"at": op[2], "count": 0, "exc": exc_cls, "fired": None}
+            state["fault"] = fault
+            try:
+                series[index[0]] if len(index) == 1 else series[index]
+                raised = None
+            except BaseException as exc:  # noqa: BLE001
+                raised = exc
+            state["fault"] = None
+            if fault["fired"] is None:
+                if raised is not None:
+                    out.fail("exception", f"{what}{op[1]}: unexpected {type(raised).__name__}: {raised}")
+                continue  # fewer evaluations than the injection point: an ordinary request
+            out.labels.append("op:interrupt")
+            flags["history"] = True
+            if raised is None or not isinstance(raised, exc_cls):
+                out.fail("interrupt-lost", f"{what}{op[1]}: the {op[3]} exception raised while evaluating {fault['fired']} did not reach the caller ({type(raised).__name__})")
+                continue
+            # the aborted element is not cached, everything evaluated before it is: the same request must now succeed,
+            # evaluate nothing twice and agree with numpy indexing of the element values
+            do_get(op[1], what + ":retry" + str(op[1]))
+            history.append(op[1])
         elif kind == "pop":
             idx = tuple(op[1])
             out.labels.append("op:pop")
